@@ -14,7 +14,7 @@ use std::collections::{BTreeMap, BTreeSet};
 pub struct C20;
 
 /// chord keys; the last one is punctuation for smart-space
-const CHORD_KEYS: [&str; 7] = ["a", "b", "c", "d", "e", "f", "."];
+pub const CHORD_KEYS: [&str; 7] = ["a", "b", "c", "d", "e", "f", "."];
 const OUT_CHARS: [char; 14] = ['a', 'b', 'g', 'h', 'i', 't', 'A', 'G', 'T', ' ', 'o', 'n', 'x', 'B'];
 /// keys for the typing that follows: never part of a chord
 const TAIL_KEYS: [&str; 5] = ["x", "y", "z", ";", ","];
@@ -44,14 +44,14 @@ pub struct ZCase {
     pub scenario: u8,
 }
 
-fn mask_keys(m: u8) -> Vec<usize> {
+pub fn mask_keys(m: u8) -> Vec<usize> {
     (0..7).filter(|i| m & (1 << i) != 0).collect()
 }
 fn chord_text(m: u8) -> String {
     mask_keys(m).iter().map(|i| CHORD_KEYS[*i]).collect()
 }
 
-fn file_text(c: &ZCase) -> String {
+pub fn file_text(c: &ZCase) -> String {
     let mut s = String::new();
     for e in &c.entries {
         s.push_str(&e.chords.iter().map(|m| chord_text(*m)).collect::<Vec<_>>().join(" "));
@@ -61,7 +61,7 @@ fn file_text(c: &ZCase) -> String {
     }
     s
 }
-fn cfg_text(c: &ZCase) -> String {
+pub fn cfg_text(c: &ZCase) -> String {
     format!(
         "(defcfg log-layer-changes no)\n(defsrc a b c d e f x y z . , ; lsft spc)\n(deflayer l0 a b c d e f x y z . , ; lsft spc)\n(defzippy zippy.txt on-first-press-chord-deadline 500 idle-reactivate-time 500 smart-space {})\n",
         ["none", "add-space-only", "full"][c.smart_space as usize % 3]
